@@ -31,6 +31,7 @@ type Env struct {
 	st     State // current heap state: family -> symbol
 	old    State // pre-state (for old())
 	wm0    string
+	lemmaLimit int                // > 0 while a lemma is being proved: lemmas from this index on are not available
 	cbSeen string                 // callback loop: the set of slice indices handed to the callback so far
 	cbElem func(k string) TTerm   // callback loop: element k of the slice before the call
 	famOf  func(fam string) string // returns current symbol of a family in st, creating the initial version on demand
@@ -1055,6 +1056,10 @@ func (g *Gen) EmitGhosts(b *strings.Builder) error {
 		if err != nil {
 			return fmt.Errorf("axiom %s: %v", ax.Pos, err)
 		}
+		if ax.LemmaIdx > 0 {
+			fmt.Fprintf(b, "(assert %s) ; @lemma %d %s\n", strings.ReplaceAll(t.S, "\n", " "), ax.LemmaIdx, ax.Pos)
+			continue
+		}
 		fmt.Fprintf(b, "(assert %s) ; axiom %s\n", t.S, ax.Pos)
 	}
 	return nil
@@ -1096,6 +1101,9 @@ func (g *Gen) InstHeapAxioms(env *Env, heap string) []string {
 		hv := heapVar(ax.E)
 		if hv == "" {
 			continue
+		}
+		if env.lemmaLimit > 0 && ax.LemmaIdx >= env.lemmaLimit {
+			continue // proving lemma number lemmaLimit: neither itself nor later lemmas may be used
 		}
 		if ax.DefOf != nil {
 			gf := ax.DefOf
@@ -1183,4 +1191,95 @@ func (sp *Spec) SynthesizeHeapGhostAxioms() {
 		sp.Axioms = append(sp.Axioms, &Clause{Kind: "axiom", Pos: gf.Pos, Text: "definition of " + gf.Name, DefOf: gf,
 			E: &Expr{Op: "forall", Bound: bound, Trig: []*Expr{app}, Args: []*Expr{{Op: "==", Args: []*Expr{app, gf.Body}}}}})
 	}
+}
+
+// LemmaGens: one synthetic "function" per `lemma[tags] n: forall ... :: body` clause.  The lemma is proved by
+// induction on the integer variable named by the label: the goal is the body for arbitrary constants, the
+// hypothesis is the quantified lemma restricted to 0 <= n' < n (so a non-positive n is a base case proved
+// outright).  Recursive ghost functions unfold through their fuel-indexed definitions, exactly as in function proofs.
+func (g *Gen) LemmaGens(prop string) []*FuncGen {
+	var out []*FuncGen
+	for i, lm := range g.Spec.Lemmas {
+		if lm.E.Op != "forall" || lm.Label == "" {
+			continue
+		}
+		if prop != "" {
+			has := false
+			for _, t := range lm.Tags {
+				if t == prop {
+					has = true
+				}
+			}
+			if !has {
+				continue
+			}
+		}
+		name := fmt.Sprintf("lemma.%d", lm.LemmaIdx)
+		_ = i
+		fg := newBareFuncGen(g, repoModule+"/internal/evaluator."+name)
+		fg.segIdx = -1
+		fg.emit("; ===== %s (%s): %s", name, lm.Pos, lm.Text)
+		fg.emit("; @provinglemma %d", lm.LemmaIdx)
+		var lerr error
+		env := &Env{g: g, vars: map[string]TTerm{}, err: &lerr, wm0: "0",
+			famOf:  func(f string) string { return f + "!0" },
+			famOld: func(f string) string { return f + "!0" }}
+		consts := map[string]TTerm{}
+		ind := ""
+		heap := ""
+		for _, b := range lm.E.Bound {
+			srt := sortFromName(b[1])
+			c := "c_" + b[0]
+			fg.emit("(declare-const %s %s)", c, srt)
+			consts[b[0]] = TTerm{S: c, Sort: srt}
+			if b[0] == lm.Label && srt == "Int" {
+				ind = c
+			}
+			if srt == "Heap" {
+				heap = c
+			}
+		}
+		if ind == "" {
+			continue
+		}
+		if heap != "" {
+			ienv := *env
+			ienv.assume = true
+			ienv.lemmaLimit = lm.LemmaIdx
+			for _, l := range g.InstHeapAxioms(&ienv, heap) {
+				fg.emit("%s", l)
+			}
+		}
+		// induction hypothesis: the lemma for smaller non-negative values of the induction variable (heap fixed)
+		henv := *env
+		henv.assume = true
+		cp := *lm.E
+		cp.Bound = nil
+		hv := map[string]TTerm{}
+		for _, b := range lm.E.Bound {
+			if sortFromName(b[1]) == "Heap" {
+				hv[b[0]] = consts[b[0]]
+				continue
+			}
+			cp.Bound = append(cp.Bound, b)
+		}
+		guard := &Expr{Op: "&&", Args: []*Expr{
+			{Op: "<=", Args: []*Expr{{Op: "int", Name: "0"}, {Op: "var", Name: lm.Label}}},
+			{Op: "<", Args: []*Expr{{Op: "var", Name: lm.Label}, {Op: "var", Name: "ind!const"}}}}}
+		cp.Args = []*Expr{{Op: "==>", Args: []*Expr{guard, lm.E.Args[0]}}}
+		hv["ind!const"] = TTerm{S: ind, Sort: "Int"}
+		ih := henv.withVars(hv).Tr(&cp)
+		fg.emit("(assert %s) ; induction hypothesis", ih.S)
+		goal := env.withVars(consts).Tr(lm.E.Args[0])
+		if lerr != nil {
+			fg.emit("; translation failed: %v", lerr)
+			fg.undecided = append(fg.undecided, Undecided{Func: fg.key, Pos: lm.Pos, Text: lm.Text, Reason: lerr.Error(), Tags: lm.Tags})
+			out = append(out, fg)
+			continue
+		}
+		fg.obls = append(fg.obls, &Obligation{Name: shortKey(fg.key) + "/induction", Kind: "lemma", Func: fg.key, Tags: lm.Tags, Guard: "true", Goal: goal.S,
+			Expect: "unsat", Block: -2, Via: -1, Pos: lm.Pos, Text: "lemma, by induction on " + lm.Label + ": " + lm.Text})
+		out = append(out, fg)
+	}
+	return out
 }
